@@ -176,6 +176,52 @@ CHECKS.update({
         ref='DESIGN.md §6 C19'),
 })
 
+CHECKS.update({
+    'C10': dict(
+        text='Theorems (Props/C10.lean) over the candidate loop of fit_temperature as a fold built from the regenerated Gen.Temp (direction-aware '
+             'comparison, tie clause, <=0 -> hard routing, initial values): for every non-empty candidate list, order, initial temperature and '
+             'score function the stored temperature is a candidate whose score no candidate beats, the recorded best score is the score of the '
+             'model as returned, the recorded results are the candidates\' scores in order, and if a candidate <= 0 is present the returned score '
+             'is not worse than hard routing. Tied to the code by the translator and by the real fit_temperature with a scripted metric, '
+             'exhaustively over score alphabet x ordered candidate lists x direction x initial temperature, plus real fits whose candidate '
+             'scores are recomputed from predict/predict_proba.',
+        note=TB + 'Modelled, not verified: the metric value of each candidate (a function of the routing attribute); NaN scores excluded; which '
+             'optimum is kept on ties is left open by the theorems (a harmless tie-rule change breaks only the correspondence).',
+        technique='Lean 4 proof (fold invariant over regenerated decision code) + exhaustive scripted differential check',
+        ref='DESIGN.md §6 C10'),
+    'C17': dict(
+        text='Theorems (Props/C17.lean): every random-draw call site of the inventory regenerated from xrfm/ on each run reads a global generator '
+             'that random_state seeds, and in the explicit-state RNG model seeding forgets any prior consumption; in the record model of xRFM.fit, '
+             'whose re-initialisation facts are regenerated from the source, a re-fitted object with any same-task history and a fresh one yield '
+             'the same prediction view for every learner. Tied to the code by bit-exact predict/predict_proba comparisons after 0..1e4 prior draws '
+             'and after 0/1/2 earlier fits, plus generator-state and entry-object correspondence.',
+        note=TB + 'Thin, protocol level: generators abstracted to (seed, count), seven-field object model, inventories by trusted AST patterns; '
+             'mostly decided by the correspondence. eigenpro/log_reg paths, GPU, n_tree_iters>0, thread-count dependence outside scope; same task '
+             'type assumed (fit sets tuning_metric).',
+        technique='Lean 4 decide over regenerated inventories + induction over fit histories; bit-exact differential testing',
+        ref='DESIGN.md §6 C17'),
+    'C18': dict(
+        text='Theorems (Props/C18.lean): every trace of the bracket grammar of fit/predict/predict_proba (thread count) and with_env_var '
+             '(PYTORCH_CUDA_ALLOC_CONF), at any nesting depth and length, returns thread count and the variable (value or absence) to the initial '
+             'state; every in-place tensor operation of the inventory regenerated on each run targets a freshly allocated tensor or is one of four '
+             'allow-listed sites justified by further decided inventories. Tied to the code by real recorded event traces parsed by a proved-sound '
+             'acceptor and by byte/_version comparison of all caller tensors over the recorded call sequences.',
+        note=TB + 'Thin/partial by nature: protocol level. Trusted: extract/gen_inplace.py (intraprocedural alias pass), the hand-written grammar, '
+             'the recorder. Not modelled: aliasing inside torch (runtime check only), GPU/Kermac, eigenpro/log_reg paths. Calls that raise are '
+             'outside the property (threads are not restored by xRFM on exceptions; recorded as an observation).',
+        technique='Lean 4 induction over a bracket grammar + decide over a regenerated static inventory; outside-recorder differential check',
+        ref='DESIGN.md §6 C18'),
+    'C20': dict(
+        text='Theorems (Props/C20.lean): in the coercion model of xRFM.fit/predict/validate_data/labels_to_numerical all documented representations '
+             'of the same data (container x dtype x shape, complete finite table) reach the leaves as one canonical float32 tensor and outputs '
+             'have the documented shape/dtype; representations outside the interface are stated explicitly. Tied to the code by recording every '
+             'leaf input for every documented representation and by bit-exact comparison of predict/predict_proba across representations.',
+        note=TB + 'Thin: finite table over a hand-written model (no translator recipe); value conversion is torch\'s; decided mostly by the '
+             'correspondence. NumPy uint16/32/64 labels and float64 feature tensors are outside the claimed interface (they raise / are not converted).',
+        technique='Lean 4 decide over an exhaustive finite table + bit-exact differential testing across representations',
+        ref='DESIGN.md §6 C20'),
+})
+
 NOT_YET = {}
 
 
